@@ -375,11 +375,25 @@ func viewConfinementRules(c *Ctx, iface *types.Interface, allImpls, targets []*t
 					con4 := fmt.Sprintf("%s.%s(%s) -> %s", implName(T), mn, p.Name(), lastSeg(u.SinkName))
 					ok := true
 					why := ""
-					if len(u.Parts) < 2 {
+					// leading empty constants ("" + root + ...) carry nothing
+					parts := u.Parts
+					for len(parts) > 0 {
+						allEmpty := len(parts[0]) > 0
+						for _, l := range parts[0] {
+							if s, isC := constString(l.Origin.Val); !isC || s != "" {
+								allEmpty = false
+							}
+						}
+						if !allEmpty {
+							break
+						}
+						parts = parts[1:]
+					}
+					if len(parts) < 2 {
 						ok, why = false, "the path is not rebased on the receiver's root"
 					} else {
 						rooted := false
-						for _, l := range u.Parts[0] {
+						for _, l := range parts[0] {
 							if l.Origin.Kind == "field" {
 								rooted = true
 							}
